@@ -66,6 +66,18 @@ func dpAlphabet() []dpBehav {
 		B("delta-number-base+1-ind-0", nil, true, func(d *crlSpec) { d.Number = 6; d.Indicator = "0" }),
 		B("delta-number-huge", nil, true, func(d *crlSpec) { d.Number = 1 << 40; d.Indicator = "5" }),
 		B("delta-ind-base+1", nil, true, func(d *crlSpec) { d.Indicator = "6" }),
+		// numbers beyond 64 bits (CRL numbers may have 20 octets): 2^64+50 against base 5, 2^64+5 (low 64 bits equal the base number)
+		B("delta-ind-2^64+50", nil, true, func(d *crlSpec) { d.Indicator = "18446744073709551666"; d.NumberBig = "18446744073709551700" }),
+		B("delta-ind-2^64+base", nil, true, func(d *crlSpec) { d.Indicator = "18446744073709551621"; d.NumberBig = "18446744073709551700" }),
+		B("base-2^64+9-delta-ind-2^80+7", func(b *crlSpec) { b.NumberBig = "18446744073709551625" }, true, func(d *crlSpec) {
+			d.Indicator = "1208925819614629174706183"
+			d.NumberBig = "1208925819614629174706190"
+		}),
+		B("base-2^64+9-delta-ind-2^64+9", func(b *crlSpec) { b.NumberBig = "18446744073709551625" }, true, func(d *crlSpec) {
+			d.Indicator = "18446744073709551625"
+			d.NumberBig = "18446744073709551626"
+		}),
+		B("base-2^64+9-delta-number-9", func(b *crlSpec) { b.NumberBig = "18446744073709551625" }, true, func(d *crlSpec) { d.Indicator = "5"; d.Number = 9 }),
 		B("delta-ind-unparsable", nil, true, func(d *crlSpec) { d.Indicator = "bad" }),
 		B("delta-no-indicator", nil, true, func(d *crlSpec) { d.Indicator = "" }),
 		B("delta-expired", nil, true, func(d *crlSpec) { d.Next = "-1h" }),
